@@ -130,6 +130,28 @@ def replay_crypto(rng=None):
     return dict(confirmed=False, call='AES-CFB8 / RSA round trips', observed='conform')
 
 
+class GhostContext(object):
+    """cryptography's CipherContext as far as the wrappers could use it: update() transforms, finalize() ends the context,
+    and either of them on a finalized context raises AlreadyFinalized (assumed contract of the external library)."""
+
+    def __init__(self, role):
+        self.role = role
+        self.finalized = False
+
+    def update(self, data):
+        if self.finalized:
+            from cryptography.exceptions import AlreadyFinalized
+            raise AlreadyFinalized('Context was already finalized.')
+        return data
+
+    def finalize(self):
+        if self.finalized:
+            from cryptography.exceptions import AlreadyFinalized
+            raise AlreadyFinalized('Context was already finalized.')
+        self.finalized = True
+        return b''
+
+
 class WrapperDelegation(Unit):
     """fileno / close / shutdown of the two cipher wrappers act on the wrapped object, once, with the same arguments:
     select() waits on the real descriptor and disconnect() really closes the transport once the channel is encrypted."""
@@ -149,14 +171,24 @@ class WrapperDelegation(Unit):
         actual = types.SimpleNamespace(fileno=lambda: (log.append('fileno'), fd)[1], close=lambda: log.append('close'),
                                        shutdown=lambda *a, **k: log.append(('shutdown', a, k)))
         which = E.fork(2, 'wrapper')
+        enc, dec = GhostContext('encryptor'), GhostContext('decryptor')
         if which == 0:
-            w = I.call(encryption.EncryptedFileObjectWrapper, actual, 'DEC')
+            w = I.call(encryption.EncryptedFileObjectWrapper, actual, dec)
         else:
-            w = I.call(encryption.EncryptedSocketWrapper, actual, 'ENC', 'DEC')
+            w = I.call(encryption.EncryptedSocketWrapper, actual, enc, dec)
         r = I.call(I.getattr_(w, 'fileno'))
         E.check('delegation.fileno', And(I.equals(r, fd), log == ['fileno']), note='the descriptor of the real object')
         I.call(I.getattr_(w, 'close'))
         E.check('delegation.close', log == ['fileno', 'close'], note='exactly one close of the real object')
+        # disconnect() closes whatever file object / socket the connection still refers to, also one that an earlier
+        # disconnect() has closed already (a refused reconnect leaves the old ones in place): a second close must not raise
+        try:
+            I.call(I.getattr_(w, 'close'))
+            E.check('delegation.close-again-does-not-raise', log.count('close') == 2,
+                    note='like the objects they wrap, the wrappers can be closed again')
+        except PyRaise as e:
+            E.check('delegation.close-again-does-not-raise', False, note='a second close() raised %r' % (e.exc,))
+        log[:] = log[:2]
         if which == 1:
             I.call(I.getattr_(w, 'shutdown'), how)
             E.check('delegation.shutdown', len(log) == 3 and log[2][0] == 'shutdown' and len(log[2][1]) == 1 and
@@ -180,6 +212,11 @@ class WrapperDelegation(Unit):
             w.close()
             if a.fileno() != -1:
                 bad = bad or 'close() left the real socket open'
+            for obj, nm in ((f, 'file-object'), (w, 'socket')):
+                try:
+                    obj.close()
+                except Exception as e:      # noqa
+                    bad = bad or 'closing the %s wrapper a second time raised %r (disconnect() after a refused reconnect does that)' % (nm, e)
         except Exception as e:
             bad = bad or 'raised %r' % (e,)
         finally:
@@ -198,4 +235,10 @@ def units(tier):
     for u, nm in ((c01.CipherFile(), 'C18.stream.file'), (c01.CipherSocket(), 'C18.stream.socket'), (c10.EncStep(), 'C18.installation')):
         u.prop, u.name = 'C18', nm
         us.append(u)
+    from . import c11
+    rl = c11.RunLoop()
+    # the decrypting wrapper is installed in the middle of a read batch: every further read of that batch must already go
+    # through it (the stream is taken from the connection at each read, never cached across reads)
+    rl.prop, rl.name = 'C18', 'C18.reads-through-current-transport'
+    us.append(rl)
     return us
